@@ -312,7 +312,7 @@ def run_check(prop, tier, seed, replay=None, sim_only=False, sim_num=None):
     vlib.build(variant, ['ovm_exec'])
     known = vlib.load_known()
     failures, crashes, drifts = [], [], []
-    cov = dict(states=0, transitions=0, traces_validated_against_impl=0, samples=[], model_errors=[],
+    cov = dict(states=0, transitions=0, traces_validated_against_impl=0, samples=[], model_errors=[], validated_steps_by_call={},
                impl_steps_executed=0, drift_lines=0, configs=[])
 
     if replay:
@@ -352,6 +352,8 @@ def run_check(prop, tier, seed, replay=None, sim_only=False, sim_num=None):
             cov['traces_validated_against_impl'] += agg['checked']
             cov['impl_steps_executed'] += agg['lines']
             cov['drift_lines'] += agg['drift']
+            for k_, v_ in agg['ops'].items():
+                cov['validated_steps_by_call'][k_] = cov['validated_steps_by_call'].get(k_, 0) + v_
         if prop == 'C08' and not sim_only:
             extra_c08(work, variant, cov, failures)
         if prop == 'C03' and not sim_only:
@@ -416,7 +418,8 @@ def run_check(prop, tier, seed, replay=None, sim_only=False, sim_num=None):
         rc = 1
     cov['drift_samples'] = drifts[:5]
     cov['known_findings_seen'] = len(kn)
-    vlib.write_evidence(prop, tier, seed, 'model_checking', cov, time.time() - t0, len(seen),
+    if not replay:
+      vlib.write_evidence(prop, tier, seed, 'model_checking', cov, time.time() - t0, len(seen),
                         ['TLC 2.x and the CommunityModules JSON bridge are trusted',
                          'the executor\'s projection of the mesh state (harness/ovm_exec.cc: dump_state) is trusted',
                          'bounded: seed meshes and depths listed in coverage.configs; beyond them only random histories'])
